@@ -43,12 +43,17 @@ def run(chk):
     commander_check(chk, 'Supv.Props.C09', ['C09-'])
     chk.prove('Supv.Props.C09', extra_targets=['drv_net'])
     cluster_stage(chk)
+    import c16free
+    c16free.liveness_stage(chk, 'C09:free:', [{'ending': True}, {}], 150, 2000)
 
 
 def replay(chk, path):
     import json
     c = json.load(open(path)); r = c.get('replay', c)
-    if 'schedule_seed' in r:
+    if r.get('stage') == 'free':
+        import c16free
+        c16free.liveness_replay(chk, r, 'C09:free:')
+    elif 'schedule_seed' in r:
         from cluster import replay_schedule
         replay_schedule(chk, path, ['C09-', 'C02-walk'])
     else:
